@@ -44,6 +44,7 @@ type rewriter struct {
 	rangeCh  map[*ast.RangeStmt]bool
 	rangeMap map[*ast.RangeStmt]bool
 	mapRange bool
+	onlyMap  bool // rewrite nothing but range-over-map (generator packages: they run outside any execution)
 	changed  bool
 }
 
@@ -151,6 +152,12 @@ var unsupportedQualified = map[string]bool{
 }
 
 func (r *rewriter) pre(c *astutil.Cursor) bool {
+	if r.onlyMap {
+		if rs, ok := c.Node().(*ast.RangeStmt); ok && isMap(r.info.TypeOf(rs.X)) {
+			r.rangeMap[rs] = true
+		}
+		return true
+	}
 	switch n := c.Node().(type) {
 	case *ast.AssignStmt:
 		if len(n.Lhs) == 2 && len(n.Rhs) == 1 {
@@ -302,6 +309,14 @@ func chanElem(e ast.Expr) ast.Expr {
 }
 
 func (r *rewriter) post(c *astutil.Cursor) bool {
+	if r.onlyMap {
+		if rs, ok := c.Node().(*ast.RangeStmt); ok && r.rangeMap[rs] {
+			c.Replace(r.rangeOverMap(rs))
+			r.changed = true
+			r.counts["range-map"]++
+		}
+		return true
+	}
 	switch n := c.Node().(type) {
 	case *ast.ChanType:
 		c.Replace(&ast.StarExpr{X: &ast.IndexExpr{X: vsSel("Chan"), Index: n.Value}})
@@ -490,6 +505,24 @@ func (r *rewriter) goStmt(n *ast.GoStmt) ast.Stmt {
 	return blk
 }
 
+// directivesOnly keeps the //go: directive lines of a doc comment (//go:embed,
+// //go:noinline, ...): dropping them would change the program.
+func directivesOnly(cg *ast.CommentGroup) *ast.CommentGroup {
+	if cg == nil {
+		return nil
+	}
+	var keep []*ast.Comment
+	for _, c := range cg.List {
+		if strings.HasPrefix(c.Text, "//go:") {
+			keep = append(keep, c)
+		}
+	}
+	if len(keep) == 0 {
+		return nil
+	}
+	return &ast.CommentGroup{List: keep}
+}
+
 func (r *rewriter) file(f *ast.File) ([]byte, bool) {
 	r.changed = false
 	r.recv2 = map[*ast.UnaryExpr]bool{}
@@ -518,9 +551,9 @@ func (r *rewriter) file(f *ast.File) ([]byte, bool) {
 	ast.Inspect(nf, func(n ast.Node) bool {
 		switch d := n.(type) {
 		case *ast.GenDecl:
-			d.Doc = nil
+			d.Doc = directivesOnly(d.Doc)
 		case *ast.FuncDecl:
-			d.Doc = nil
+			d.Doc = directivesOnly(d.Doc)
 		case *ast.Field:
 			d.Doc, d.Comment = nil, nil
 		case *ast.ValueSpec:
@@ -577,6 +610,7 @@ func main() {
 	ovl := flag.String("overlay", "", "overlay JSON to write (merged if it exists and -merge)")
 	merge := flag.Bool("merge", false, "merge into an existing overlay file")
 	mapRange := flag.Bool("maprange", false, "also rewrite range-over-map into vs.MapKeys")
+	onlyMap := flag.Bool("only-maprange", false, "rewrite nothing but range-over-map")
 	tags := flag.String("tags", "", "build tags for loading")
 	pkgname := flag.String("pkgname", "", "rename the package clause of rewritten files (used with -mapto)")
 	mapto := flag.String("mapto", "", "overlay the rewritten files into this (virtual) directory instead of over their sources; all files of the package are emitted")
@@ -613,7 +647,7 @@ func main() {
 		if bad {
 			continue
 		}
-		r := &rewriter{fset: p.Fset, info: p.TypesInfo, pkg: p.Types, counts: map[string]int{}, mapRange: *mapRange}
+		r := &rewriter{fset: p.Fset, info: p.TypesInfo, pkg: p.Types, counts: map[string]int{}, mapRange: *mapRange || *onlyMap, onlyMap: *onlyMap}
 		for i, f := range p.Syntax {
 			name := p.CompiledGoFiles[i]
 			if strings.HasSuffix(name, "_test.go") {
